@@ -21,6 +21,10 @@ structure Fits32With (w : LW R) (es : List (Event String String)) : Prop where
 def mergedOutcomes (w : LW R) (es : List (Event String String)) : List String :=
   w.outcomes ++ (countNames es).2.filter (fun o => !w.outcomes.contains o)
 
+/-- the merged cue labels of a continued call: old labels, then the new names -/
+def mergedCues (w : LW R) (es : List (Event String String)) : List String :=
+  w.cues ++ (countNames es).1.filter (fun c => !w.cues.contains c)
+
 theorem size_extendVals (old : Array R) (a b c d : Nat) : (extendVals old a b c d).size = c * d := by
   simp [extendVals]
 
@@ -29,7 +33,7 @@ theorem size_extendVals (old : Array R) (a b c d : Nat) : (extendVals old a b c 
     value at every (outcome, cue) is `rwLearn` started from the weight
     function `w` denotes — also when the events bring new cues and outcomes.
     `hcfg`: legal chunking arguments w.r.t. the MERGED outcome labels (OpenMP:
-    their number plus `n_outcomes_per_job` is below 2³²). -/
+    `n_outcomes_per_job < 2³²` and no wrap-around of the part bounds). -/
 theorem ndlModel_continue_eq_spec (magic version : Nat) (hm : magic < 4294967296) (hv : version < 4294967296)
     (cfg : NdlCfg) (alpha β₁ β₂ lam : R)
     (w : LW R) (es es' : List (Event String String))
